@@ -20,6 +20,17 @@
 //! runnable any more every task has finished (an awaited operation whose peer has acted is never
 //! left pending: no lost wake-up, no deadlock), which includes `shutdown_idle` after all clients
 //! are gone; the poll budget is not exhausted (no livelock).
+//!
+//! Events (section "event oracle"): the harness keeps, from the PROGRAM alone, the subscription
+//! state of every proxy and every key (event id 0..3, "all events").  A key that was subscribed
+//! (call returned Ok) before a *rendezvous* (`rz`: every client syncs with the broker, barrier,
+//! syncs again, barrier) in which both the proxy's client and the service's owner took part is
+//! `Stable`: from then on, until the application itself calls unsubscribe / unsubscribe_all /
+//! drops that very proxy, every event the owner emits under that key MUST be delivered to that
+//! proxy, exactly once and in emit order — whatever sibling proxies of the same client or other
+//! clients do in the meantime.  An awaited `next_event()` with such an event outstanding has to
+//! complete (`EVENT lost`).  A delivered event must have been emitted while the proxy was
+//! subscribed at some time between the emit and the delivery (`EVENT unsubscribed`).
 #![allow(clippy::all)]
 use aldrin::core::channel::{self, Disconnected};
 use aldrin::core::message::Message;
@@ -66,6 +77,7 @@ const OPS: &[(&str, usize)] = &[
     ("cs", 3),  // create service on object i, uuid index, version
     ("sv", 3),  // server command: service j, 0 emit / 1 destroy / 2 stop, event
     ("px", 1),  // create proxy for global service g
+    ("pf", 3),  // proxy family: k (1..5) proxies for global service g; c = 4 bits per proxy: subscribe event 0 / 1 / 2 / all events
     ("ca", 3),  // call: proxy p, function*8+class, mode (0 await,1 drop,2 poll once+drop,3 hold)
     ("aw", 1),  // await held call i
     ("su", 2),  // subscribe proxy p event
@@ -94,6 +106,8 @@ const OPS: &[(&str, usize)] = &[
     ("bp", 2),  // poll listener i up to n events
     ("bd", 2),  // listener i: 1 destroy().await then drop, 0 drop
     ("sy", 1),  // sync: 0 client, 1 broker
+    ("rz", 0),  // rendezvous of all clients: sync_broker, barrier, sync_broker, barrier (the k-th
+    // `rz` of every client belongs together; a finished program counts as arrived)
     ("yi", 1),  // yield n times
     ("sh", 0),  // Handle::shutdown()
 ];
@@ -138,12 +152,24 @@ struct Case {
     /// duplicate, re-deliver an old one, swap with the next).  Such a case is NOT judged by the
     /// property oracle: it only produces sessions for the acceptance-automaton correspondence.
     faults: u32,
+    /// negotiated protocol minor version per client (1.14 ..= 1.20; missing = 20).  14 connects with
+    /// the old `Connect` handshake (`ClientBuilder::connect1`), 15..19 clamp the minor version of
+    /// the client's `Connect2` in the transport tap, so that the real broker answers with it.
+    vers: Vec<u32>,
     ops: Vec<(usize, Op)>, // (client, op) — per client in order
 }
 
 impl Case {
+    fn ver(&self, client: usize) -> u32 {
+        self.vers.get(client).copied().unwrap_or(20)
+    }
     fn text(&self) -> String {
-        let mut s = format!("n={} fifo={} sched={} spur={} barrier={} faults={} |", self.n, self.fifo, self.sched, self.spurious, self.barrier as u8, self.faults);
+        let mut s = format!("n={} fifo={} sched={} spur={} barrier={} faults={}", self.n, self.fifo, self.sched, self.spurious, self.barrier as u8, self.faults);
+        if self.vers.iter().any(|v| *v != 20) {
+            let v: Vec<String> = (0..self.n).map(|i| self.ver(i).to_string()).collect();
+            write!(s, " ver={}", v.join(",")).unwrap();
+        }
+        s.push_str(" |");
         for (c, o) in &self.ops {
             write!(s, " {}:{}", c, o.text()).unwrap();
         }
@@ -151,7 +177,7 @@ impl Case {
     }
     fn parse(line: &str) -> Option<Case> {
         let (head, body) = line.split_once('|')?;
-        let mut c = Case { n: 2, fifo: 0, sched: 1, spurious: 0, barrier: false, faults: 0, ops: vec![] };
+        let mut c = Case { n: 2, fifo: 0, sched: 1, spurious: 0, barrier: false, faults: 0, vers: vec![], ops: vec![] };
         for kv in head.split_whitespace() {
             let (k, v) = kv.split_once('=')?;
             match k {
@@ -161,6 +187,15 @@ impl Case {
                 "spur" => c.spurious = v.parse().ok()?,
                 "barrier" => c.barrier = v == "1",
                 "faults" => c.faults = v.parse().ok()?,
+                "ver" => {
+                    for x in v.split(',') {
+                        let m: u32 = x.parse().ok()?;
+                        if !(14..=20).contains(&m) {
+                            return None;
+                        }
+                        c.vers.push(m);
+                    }
+                }
                 _ => return None,
             }
         }
@@ -177,6 +212,12 @@ struct GenOpts {
     failing_claims: bool, // claims that the broker refuses (pool entries left behind, closed peers)
     cancel_claims: bool,  // claim futures dropped while the request is in flight
     shutdown_op: bool,
+    event_theme: bool, // half of the cases use the event-themed generator
+    /// this program draws half of its operations from the object / service / bus-listener slots
+    /// (objects and services that come and go under listeners that are started, stopped and destroyed)
+    listener_heavy: bool,
+    /// protocol-version diversity (half of the cases mix 1.14 ..= 1.20)
+    versions: bool,
 }
 
 fn gen_program(r: &mut Rng, who: usize, len: usize, o: GenOpts, out: &mut Vec<(usize, Op)>) {
@@ -189,13 +230,17 @@ fn gen_program(r: &mut Rng, who: usize, len: usize, o: GenOpts, out: &mut Vec<(u
     let mut i = 0;
     while i < len {
         i += 1;
-        let x = r.below(100);
+        let mut x = r.below(100);
         let idx = r.below(8);
+        if o.listener_heavy && r.below(2) == 0 {
+            x = *r.pick(&[0u64, 1, 6, 9, 15, 91, 92, 91, 92, 93, 94, 95, 96, 97, 97]);
+        }
         match x {
-            0..=5 => {
+            0..=4 => {
                 push(out, "co", r.below(4), 0, 0);
                 objs += 1;
             }
+            5 => push(out, "rz", 0, 0, 0),
             6..=8 if objs > 0 => {
                 push(out, "do", idx, r.below(2), 0);
                 objs -= 1;
@@ -206,14 +251,23 @@ fn gen_program(r: &mut Rng, who: usize, len: usize, o: GenOpts, out: &mut Vec<(u
             }
             15..=18 if svcs > 0 => {
                 let cmd = *r.pick(&[0u64, 0, 0, 0, 0, 0, 0, 1, 2]);
-                push(out, "sv", idx, cmd, r.below(3));
+                push(out, "sv", idx, cmd, r.below(NEV as u64));
                 if cmd != 0 {
                     svcs -= 1;
                 }
             }
             19..=25 => {
-                push(out, "px", r.below(16), 0, 0);
-                prox += 1;
+                // mostly one of the first services, so that a client holds several proxies of one service
+                let g = if r.below(3) == 0 { r.below(16) } else { r.below(3) };
+                if r.below(4) == 0 {
+                    // a small family with random subscription sets
+                    let k = 2 + r.below(2);
+                    push(out, "pf", g, k, r.below(1 << 12));
+                    prox += k as u32;
+                } else {
+                    push(out, "px", g, 0, 0);
+                    prox += 1;
+                }
             }
             26..=38 if prox > 0 => {
                 let mode = *r.pick(&[0u64, 0, 0, 0, 1, 2, 3, 3]);
@@ -227,13 +281,13 @@ fn gen_program(r: &mut Rng, who: usize, len: usize, o: GenOpts, out: &mut Vec<(u
                 held -= 1;
             }
             41..=43 if prox > 0 => {
-                push(out, "su", idx, r.below(3), 0);
+                push(out, "su", idx, r.below(NEV as u64), 0);
                 if r.below(2) == 0 {
                     push(out, "pe", idx, 1 + r.below(4), 0);
                     i += 1;
                 }
             }
-            44 if prox > 0 => push(out, "us", idx, r.below(3), 0),
+            44 if prox > 0 => push(out, "us", idx, r.below(NEV as u64), 0),
             45..=46 if prox > 0 => push(out, "sa", idx, 0, 0),
             47 if prox > 0 => push(out, "ua", idx, 0, 0),
             48..=49 if prox > 0 => push(out, "pe", idx, 1 + r.below(4), 0),
@@ -306,14 +360,28 @@ fn gen_program(r: &mut Rng, who: usize, len: usize, o: GenOpts, out: &mut Vec<(u
             90 if rc > 0 => {
                 push(out, "xr", idx, r.below(2), 0);
             }
-            91..=92 if bl < 2 => {
+            91..=92 if bl < 2 + o.listener_heavy as u32 => {
                 push(out, "bc", 0, 0, 0);
-                if r.below(2) == 0 {
-                    push(out, "bf", bl as u64, r.below(4), 0);
-                    push(out, "bs", bl as u64, r.below(3), 0);
-                    i += 2;
-                }
                 bl += 1;
+                if r.below(2) == 0 {
+                    push(out, "bf", bl as u64 - 1, r.below(4), 0);
+                    push(out, "bs", bl as u64 - 1, r.below(3), 0);
+                    i += 2;
+                    // short-lived listeners: stopped or destroyed/dropped right after start(), while
+                    // the broker's answer burst (current objects, CurrentFinished) may still be in flight
+                    match r.below(4) {
+                        0 => {
+                            push(out, "bd", bl as u64 - 1, r.below(2), 0);
+                            bl -= 1;
+                            i += 1;
+                        }
+                        1 => {
+                            push(out, "bt", bl as u64 - 1, 0, 0);
+                            i += 1;
+                        }
+                        _ => {}
+                    }
+                }
             }
             93 if bl > 0 => push(out, "bf", idx, r.below(4), *r.pick(&[0u64, 0, 0, 1, 2])),
             94 if bl > 0 => push(out, "bs", idx, r.below(3), 0),
@@ -336,6 +404,165 @@ fn gen_program(r: &mut Rng, who: usize, len: usize, o: GenOpts, out: &mut Vec<(u
     }
 }
 
+/// counts of what an event-themed client holds (optimistic, only to bias the choice of operations)
+#[derive(Clone, Copy, Default)]
+struct EvCnt {
+    objs: u32,
+    svcs: u32,
+    prox: u32,
+    left: usize,
+    /// sparse case: few single-event subscriptions (they come and go), mostly all-events ones — so
+    /// that the LAST single-event subscription of a service ends while all-events ones stay
+    sparse: bool,
+}
+
+/// a family of 2..5 proxies of one service with (mostly) different subscription sets
+fn gen_family(r: &mut Rng, who: usize, c: &mut EvCnt, out: &mut Vec<(usize, Op)>) {
+    let k = if c.sparse { 1 + r.below(3) } else { 2 + r.below(4) }.min(8 - c.prox as u64);
+    let mut bits = 0u64;
+    for j in 0..k {
+        // per member: nothing, one event, two events, all events, an event and all events
+        let b = if c.sparse {
+            *r.pick(&[8u64, 8, 8, 0, 0, 1, 1, 2])
+        } else {
+            *r.pick(&[0u64, 1, 1, 1, 2, 2, 4, 3, 5, 8, 8, 9, 1, 3, 6, 10])
+        };
+        bits |= b << (4 * j);
+    }
+    out.push((who, Op::new("pf", *r.pick(&[0u64, 0, 0, 0, 1, 1, 2]) as u32, k as u32, bits as u32)));
+    c.prox += k as u32;
+}
+
+/// one operation of the event-themed mix for client `who`: proxies of the first few services (up
+/// to 6 alive per client, created and dropped at any time), (un)subscriptions of single events and
+/// of all events, event polls, some emits (so that emits also race with the changes), a few
+/// calls / syncs / further services / destructions
+fn gen_event_op(r: &mut Rng, who: usize, c: &mut EvCnt, out: &mut Vec<(usize, Op)>) {
+    const EV: [u64; 8] = [0, 0, 0, 1, 1, 2, 2, 3];
+    let push = |out: &mut Vec<(usize, Op)>, k: &str, a: u64, b: u64, c: u64| {
+        out.push((who, Op::new(k, a as u32, b as u32, c as u32)))
+    };
+    loop {
+        let mut x = r.below(100);
+        let idx = r.below(8);
+        if c.sparse && (16..=37).contains(&x) {
+            // fewer subscribe(event): the slots go to unsubscribe / subscribe_all / drop
+            x = *r.pick(&[16, 20, 24, 38, 40, 42, 46, 48, 50, 52, 55, 60, 64, 68]);
+        }
+        match x {
+            0..=6 if c.prox + 2 <= 8 => gen_family(r, who, c, out),
+            7..=15 if c.prox < 8 => {
+                push(out, "px", *r.pick(&[0u64, 0, 0, 0, 1, 1, 2]), 0, 0);
+                c.prox += 1;
+            }
+            16..=37 if c.prox > 0 => push(out, "su", idx, *r.pick(&EV), 0),
+            38..=45 if c.prox > 0 => push(out, "us", idx, *r.pick(&EV), 0),
+            46..=54 if c.prox > 0 => push(out, "sa", idx, 0, 0),
+            55..=59 if c.prox > 0 => push(out, "ua", idx, 0, 0),
+            60..=71 if c.prox > 1 => {
+                push(out, "dp", idx, 0, 0);
+                c.prox -= 1;
+            }
+            72..=79 if c.prox > 0 => push(out, "pe", idx, 1 + r.below(4), 0),
+            80..=86 if c.svcs > 0 => push(out, "sv", idx, 0, *r.pick(&EV)),
+            87..=89 => push(out, "yi", 1 + r.below(4), 0, 0),
+            90..=91 => push(out, "sy", r.below(2), 0, 0),
+            92..=94 if c.prox > 0 => push(out, "ca", idx, r.below(3) * 8 + r.below(8), *r.pick(&[0u64, 0, 0, 1, 2])),
+            95 => {
+                push(out, "co", r.below(4), 0, 0);
+                c.objs += 1;
+            }
+            96..=97 if c.objs > 0 => {
+                push(out, "cs", idx, r.below(3), 1 + r.below(3));
+                c.svcs += 1;
+            }
+            98 if c.objs > 1 && r.below(2) == 0 => {
+                push(out, "do", idx, r.below(2), 0);
+                c.objs -= 1;
+            }
+            99 if c.svcs > 1 && r.below(2) == 0 => {
+                push(out, "sv", idx, 1 + r.below(2), 0);
+                c.svcs -= 1;
+            }
+            _ => continue, // not applicable: draw again (px / yi are always applicable)
+        }
+        break;
+    }
+    c.left = c.left.saturating_sub(1);
+}
+
+/// the event-themed case: every client's program is built in ROUNDS —
+///   a few operations of the event mix per client (different numbers, so the clients drift),
+///   a rendezvous (which confirms what is subscribed then),
+///   the owners emit a burst over subscribed and unsubscribed event ids while the other clients
+///   already run the next round's operations (drops, unsubscribes, new proxies race with the emits).
+/// `lens[who]` bounds the program of each client: a short one ends (and disconnects) while the
+/// others go on.
+fn gen_event_case(r: &mut Rng, lens: &[usize], o: GenOpts, out: &mut Vec<(usize, Op)>) {
+    const EV: [u64; 8] = [0, 0, 0, 1, 1, 2, 2, 3];
+    let n = lens.len();
+    let sparse = r.below(3) == 0;
+    let mut cnt: Vec<EvCnt> = lens.iter().map(|l| EvCnt { left: *l, sparse, ..Default::default() }).collect();
+    let mut starts = vec![];
+    for who in 0..n {
+        starts.push(out.len());
+        // few services per case (client 0 always owns one), so that subscriptions and emits meet
+        if who == 0 || r.below(3) == 0 {
+            out.push((who, Op::new("co", who as u32, 0, 0))); // distinct uuids: no DuplicateObject here
+            cnt[who].objs += 1;
+            for _ in 0..1 + r.below(2) {
+                out.push((who, Op::new("cs", 0, r.below(3) as u32, 1 + r.below(3) as u32)));
+                cnt[who].svcs += 1;
+            }
+        }
+        out.push((who, Op::new("rz", 0, 0, 0)));
+        if r.below(4) != 0 && cnt[who].left > 0 {
+            gen_family(r, who, &mut cnt[who], out);
+            cnt[who].left -= 1;
+        }
+    }
+    while cnt.iter().any(|c| c.left > 0) {
+        for who in 0..n {
+            let k = (1 + r.below(8)) as usize;
+            for _ in 0..k.min(cnt[who].left) {
+                gen_event_op(r, who, &mut cnt[who], out);
+            }
+        }
+        let skip = r.below(8) == 0; // sometimes a round without rendezvous
+        for who in 0..n {
+            if cnt[who].left > 0 && !skip {
+                out.push((who, Op::new("rz", 0, 0, 0)));
+                cnt[who].left -= 1;
+            }
+        }
+        for who in 0..n {
+            if cnt[who].svcs == 0 || cnt[who].left == 0 {
+                continue;
+            }
+            for _ in 0..1 + r.below(5) {
+                if cnt[who].left == 0 {
+                    break;
+                }
+                out.push((who, Op::new("sv", r.below(4) as u32, 0, *r.pick(&EV) as u32)));
+                cnt[who].left -= 1;
+                if r.below(3) == 0 && cnt[who].left > 0 {
+                    gen_event_op(r, who, &mut cnt[who], out);
+                }
+            }
+        }
+    }
+    for who in 0..n {
+        if o.shutdown_op && r.below(6) == 0 {
+            // a subscriber (or owner) that disconnects while the others go on
+            let mine: Vec<usize> = (0..out.len()).filter(|i| out[*i].0 == who).collect();
+            let k = mine.len() - r.below(1 + mine.len() as u64 / 3) as usize;
+            let at = if k >= mine.len() { out.len() } else { mine[k] };
+            out.insert(at, (who, Op::new("sh", 0, 0, 0)));
+        }
+    }
+    let _ = starts;
+}
+
 fn gen_case(r: &mut Rng, len: usize, o: GenOpts) -> Case {
     let n = 2 + r.below(3) as usize;
     let fifo = match r.below(8) {
@@ -346,11 +573,25 @@ fn gen_case(r: &mut Rng, len: usize, o: GenOpts) -> Case {
         _ => 1 + r.below(16) as usize,
     };
     let mut ops = vec![];
-    for who in 0..n {
-        let l = if r.below(5) == 0 { 1 + r.below(len as u64) as usize } else { len };
-        gen_program(r, who, l, o, &mut ops);
+    // half of the cases are event-themed (all clients of the case)
+    let events = o.event_theme && r.below(2) == 0;
+    let lens: Vec<usize> = (0..n).map(|_| if r.below(5) == 0 { 1 + r.below(len as u64) as usize } else { len }).collect();
+    if events {
+        gen_event_case(r, &lens, o, &mut ops);
+    } else {
+        // a third of the general cases is listener-heavy
+        let o = GenOpts { listener_heavy: r.below(3) == 0, ..o };
+        for who in 0..n {
+            gen_program(r, who, lens[who], o, &mut ops);
+        }
     }
-    Case { n, fifo, sched: r.next() >> 1, spurious: if r.below(6) == 0 { 8 } else { 0 }, barrier: !o.failing_claims, faults: 0, ops }
+    // protocol versions: half of the cases all-newest, otherwise every client draws its own
+    let vers: Vec<u32> = if !o.versions || r.below(2) == 0 {
+        vec![]
+    } else {
+        (0..n).map(|_| *r.pick(&[20u64, 20, 20, 20, 20, 20, 19, 19, 18, 18, 18, 17, 17, 17, 16, 16, 15, 15, 14, 14]) as u32).collect()
+    };
+    Case { n, fifo, sched: r.next() >> 1, spurious: if r.below(6) == 0 { 8 } else { 0 }, barrier: !o.failing_claims, faults: 0, vers, ops }
 }
 
 // ------------------------------------------------------------------------------------------
@@ -460,11 +701,13 @@ struct Tap {
     pending: VecDeque<Message>,
     held: Option<Message>,
     history: Vec<Message>,
+    /// the peer "only speaks up to 1.<clamp>": the minor version of an outgoing Connect2 is lowered
+    clamp: Option<u32>,
 }
 
 impl Tap {
     fn new(inner: Tx, log: Option<Log>) -> Tap {
-        Tap { inner, log, epoch: 0, calls: 0, faults: 0, rng: Rng::new(1), pending: VecDeque::new(), held: None, history: vec![] }
+        Tap { inner, log, epoch: 0, calls: 0, faults: 0, rng: Rng::new(1), pending: VecDeque::new(), held: None, history: vec![], clamp: None }
     }
 
     fn deliver(&mut self, m: Message) -> Poll<Result<Message, Disconnected>> {
@@ -539,7 +782,10 @@ impl AsyncTransport for Tap {
     fn send_poll_ready(mut self: Pin<&mut Self>, cx: &mut Context) -> Poll<Result<(), Disconnected>> {
         Pin::new(&mut self.inner).send_poll_ready(cx)
     }
-    fn send_start(mut self: Pin<&mut Self>, msg: Message) -> Result<(), Disconnected> {
+    fn send_start(mut self: Pin<&mut Self>, mut msg: Message) -> Result<(), Disconnected> {
+        if let (Some(c), Message::Connect2(connect)) = (self.clamp, &mut msg) {
+            connect.minor_version = connect.minor_version.min(c);
+        }
         if let Some(log) = &self.log {
             log.borrow_mut().push((true, msg.clone()));
         }
@@ -556,6 +802,19 @@ impl AsyncTransport for Tap {
 #[derive(Default)]
 struct Board {
     services: Vec<ServiceId>,
+    // event oracle (see below)
+    svc_rec: Vec<SvcRec>,
+    px: Vec<PxRec>,
+    emits: Vec<EmitRec>,
+    clock: u64,
+    shut: Vec<bool>,
+    rz_arr: Vec<u64>,
+    rz_good: Vec<Option<u64>>,
+    rz_done: u64,
+    /// false in a disturbed case (fault injection): nothing is awaited without bound there
+    judge: bool,
+    /// negotiated protocol minor version per client
+    vers: Vec<u32>,
     recv_ends: Vec<ChannelCookie>,
     send_ends: Vec<ChannelCookie>,
     chan_tag: HashMap<ChannelCookie, u32>,
@@ -588,8 +847,310 @@ fn ok_value(arg: u32, f: u32) -> u32 {
 fn err_value(arg: u32, f: u32) -> u32 {
     (arg ^ 0x5555_0000).wrapping_add(f)
 }
-fn event_value(ev: u32, n: u32) -> u32 {
-    ev.wrapping_mul(1000).wrapping_add(n & 0xff)
+/// the value of the `seq`-th emit of the case (seq counts from 1 over all services)
+fn event_value(ev: u32, seq: u32) -> u32 {
+    seq.wrapping_mul(16).wrapping_add(ev & 15)
+}
+
+// ------------------------------------------------------------------------------------------
+// event oracle: per-proxy subscription state and expected events, from the program alone
+
+/// event ids used by programs
+const NEV: u32 = 4;
+/// key index of "all events"
+const KALL: usize = NEV as usize;
+const NKEY: usize = KALL + 1;
+
+/// state of one key (event id or "all events") of one proxy, as the APPLICATION knows it
+#[derive(Clone, Copy, PartialEq, Eq, Debug)]
+enum Sub {
+    Off,     // never subscribed, or the unsubscribing call has returned
+    Pending, // subscribe()/subscribe_all() called, not yet returned
+    On,      // ... returned Ok
+    Stable,  // On, and a rendezvous of the proxy's client and the owner's client happened since
+    Leaving, // unsubscribe()/unsubscribe_all() called, not yet returned
+    Zombie,  // a subscribing call returned an error (service gone): anything may or may not arrive
+}
+
+#[derive(Clone, Copy)]
+struct Must {
+    seq: u32,
+    ev: u32,
+    by_ev: bool,  // the event's own key was Stable at the emit and has not been given up since
+    by_all: bool, // the same for the all-events key
+}
+
+struct PxRec {
+    client: usize,
+    svc: usize,
+    alive: bool,
+    st: [Sub; NKEY],
+    ever: [bool; NKEY],
+    /// clock value at which the key last became Off
+    off_at: [u64; NKEY],
+    /// emits that HAVE to be delivered to this proxy, in emit order
+    must: VecDeque<Must>,
+    last_seq: u32,
+    /// the application is inside `next_event().await` because `must` is not empty
+    awaiting: bool,
+}
+
+struct SvcRec {
+    owner: usize,
+    /// the owner has started to destroy the service (or its object, or shut down, or finished)
+    ended: bool,
+}
+
+struct EmitRec {
+    svc: usize,
+    ev: u32,
+    at: u64,
+}
+
+fn px_new(b: &B, client: usize, svc: usize) -> usize {
+    let mut bb = b.borrow_mut();
+    bb.px.push(PxRec {
+        client,
+        svc,
+        alive: true,
+        st: [Sub::Off; NKEY],
+        ever: [false; NKEY],
+        off_at: [0; NKEY],
+        must: VecDeque::new(),
+        last_seq: 0,
+        awaiting: false,
+    });
+    bb.px.len() - 1
+}
+
+fn px_sub_begin(b: &B, pid: usize, key: usize) {
+    let mut bb = b.borrow_mut();
+    let p = &mut bb.px[pid];
+    p.ever[key] = true;
+    if matches!(p.st[key], Sub::Off | Sub::Leaving | Sub::Zombie) {
+        p.st[key] = Sub::Pending;
+    }
+}
+
+fn px_sub_end(b: &B, pid: usize, key: usize, ok: bool) {
+    let mut bb = b.borrow_mut();
+    let p = &mut bb.px[pid];
+    if !ok {
+        p.st[key] = Sub::Zombie;
+    } else if p.st[key] == Sub::Pending {
+        p.st[key] = Sub::On;
+    }
+}
+
+/// `key` = event id, or KALL for unsubscribe_all() (which gives up EVERY key of the proxy)
+fn px_unsub_begin(b: &B, pid: usize, key: usize) {
+    let mut bb = b.borrow_mut();
+    let p = &mut bb.px[pid];
+    if key == KALL {
+        for k in 0..NKEY {
+            if p.st[k] != Sub::Off {
+                p.st[k] = Sub::Leaving;
+            }
+        }
+        p.must.clear();
+    } else {
+        if p.st[key] != Sub::Off {
+            p.st[key] = Sub::Leaving;
+        }
+        for m in p.must.iter_mut() {
+            if m.ev as usize == key {
+                m.by_ev = false;
+            }
+        }
+        p.must.retain(|m| m.by_ev || m.by_all);
+    }
+}
+
+fn px_unsub_end(b: &B, pid: usize, key: usize) {
+    let mut bb = b.borrow_mut();
+    bb.clock += 1;
+    let now = bb.clock;
+    let p = &mut bb.px[pid];
+    for k in 0..NKEY {
+        if (key == KALL || k == key) && p.st[k] == Sub::Leaving {
+            p.st[k] = Sub::Off;
+            p.off_at[k] = now;
+        }
+    }
+}
+
+fn px_dead(b: &B, pid: usize) {
+    let mut bb = b.borrow_mut();
+    let p = &mut bb.px[pid];
+    p.alive = false;
+    p.must.clear();
+    p.awaiting = false;
+}
+
+fn svc_end(b: &B, svc: usize) {
+    b.borrow_mut().svc_rec[svc].ended = true;
+}
+
+/// the owner emits event `ev` of service `svc`: the sequence number of this emit
+fn emit_begin(b: &B, svc: usize, ev: u32) -> u32 {
+    let mut bb = b.borrow_mut();
+    bb.clock += 1;
+    let at = bb.clock;
+    bb.emits.push(EmitRec { svc, ev, at });
+    bb.emits.len() as u32
+}
+
+/// `Service::emit` returned Ok: every proxy holding a Stable key for it has to receive it
+fn emit_ok(b: &B, svc: usize, ev: u32, seq: u32) {
+    let mut bb = b.borrow_mut();
+    let owner = bb.svc_rec[svc].owner;
+    if bb.svc_rec[svc].ended || bb.shut[owner] {
+        return;
+    }
+    let (mut n, mut subscribed) = (0u64, 0u64);
+    for p in bb.px.iter_mut() {
+        if !p.alive || p.svc != svc {
+            continue;
+        }
+        let by_ev = p.st[ev as usize] == Sub::Stable;
+        let by_all = p.st[KALL] == Sub::Stable;
+        if by_ev || by_all {
+            p.must.push_back(Must { seq, ev, by_ev, by_all });
+            n += 1;
+        } else if p.st[ev as usize] != Sub::Off || p.st[KALL] != Sub::Off {
+            subscribed += 1;
+        }
+    }
+    *bb.stats.entry("event.must_recorded".into()).or_insert(0) += n;
+    *bb.stats.entry("event.may_recorded".into()).or_insert(0) += subscribed;
+    if n == 0 && subscribed == 0 {
+        *bb.stats.entry("emit.nobody_subscribed".into()).or_insert(0) += 1;
+    }
+}
+
+/// proxy `pid` delivered an event with id `id` and value `v`: Err((class, detail)) if the oracle objects
+fn event_delivered(b: &B, pid: usize, id: u32, v: Option<u32>) -> Result<(), (&'static str, String)> {
+    let mut bb = b.borrow_mut();
+    let who = bb.px[pid].client;
+    let Some(v) = v else {
+        return Err(("VALUE event", format!("c{who} event {id}: value does not decode")));
+    };
+    let seq = v >> 4;
+    if v & 15 != id || seq == 0 || seq as usize > bb.emits.len() || bb.emits[seq as usize - 1].ev != id {
+        return Err(("VALUE event", format!("c{who} event {id} carries a foreign value {v}")));
+    }
+    let (esvc, eat) = {
+        let e = &bb.emits[seq as usize - 1];
+        (e.svc, e.at)
+    };
+    let p = &mut bb.px[pid];
+    if esvc != p.svc {
+        return Err(("EVENT foreign", format!("c{who} proxy #{pid} of service #{} received emit #{seq} (event {id}) of service #{esvc}", p.svc)));
+    }
+    if seq <= p.last_seq {
+        return Err((
+            "EVENT order",
+            format!("c{who} proxy #{pid} received emit #{seq} (event {id}) after emit #{}: duplicated or out of emit order", p.last_seq),
+        ));
+    }
+    let held = |k: usize| p.st[k] != Sub::Off || (p.ever[k] && p.off_at[k] > eat);
+    if !(held(id as usize) || held(KALL)) {
+        return Err((
+            "EVENT unsubscribed",
+            format!(
+                "c{who} proxy #{pid} received emit #{seq} of event {id}, but at no time between that emit and now was it subscribed to event {id} or to all events (states now {:?})",
+                p.st
+            ),
+        ));
+    }
+    p.last_seq = seq;
+    let mut was_must = false;
+    while let Some(m) = p.must.front().copied() {
+        if m.seq < seq {
+            return Err((
+                "EVENT lost",
+                format!(
+                    "c{who} proxy #{pid} (service #{}) received emit #{seq} but never emit #{} of event {}, which was emitted earlier while the proxy held a confirmed subscription ({})",
+                    p.svc,
+                    m.seq,
+                    m.ev,
+                    if m.by_ev { "to that event" } else { "to all events" }
+                ),
+            ));
+        }
+        if m.seq == seq {
+            p.must.pop_front();
+            was_must = true;
+        }
+        break;
+    }
+    *bb.stats.entry(if was_must { "event.must_delivered" } else { "event.may_delivered" }.into()).or_insert(0) += 1;
+    Ok(())
+}
+
+/// arrive at barrier `idx` of the rendezvous sequence and wait for every other client (clients whose
+/// program has finished count as arrived everywhere)
+async fn rz_wait(b: &B, who: usize, idx: u64) {
+    let ws: Vec<Waker> = {
+        let mut bb = b.borrow_mut();
+        bb.rz_arr[who] = idx + 1;
+        bb.barrier_wakers.drain(..).collect()
+    };
+    for w in ws {
+        w.wake();
+    }
+    poll_fn(|cx| {
+        let mut bb = b.borrow_mut();
+        if bb.rz_arr.iter().all(|a| *a > idx) {
+            Poll::Ready(())
+        } else {
+            bb.barrier_wakers.push(cx.waker().clone());
+            Poll::Pending
+        }
+    })
+    .await;
+}
+
+fn rz_leave(b: &B, who: usize) {
+    let ws: Vec<Waker> = {
+        let mut bb = b.borrow_mut();
+        if who < bb.rz_arr.len() {
+            bb.rz_arr[who] = u64::MAX;
+        }
+        bb.barrier_wakers.drain(..).collect()
+    };
+    for w in ws {
+        w.wake();
+    }
+}
+
+/// rendezvous `k` is complete (called by every participant right after the last barrier; the first
+/// caller does the work, before any participant runs its next operation): a key that is `On` at a
+/// proxy whose client AND whose service's owner both completed the two syncs is confirmed at the
+/// broker (the subscriber's first sync follows its SubscribeEvent on the same FIFO) and at the
+/// owner (the owner's second sync started after that, its reply follows the forwarded
+/// SubscribeEvent on the broker -> owner FIFO)
+fn rz_upgrade(b: &B, k: u64) {
+    let mut bb = b.borrow_mut();
+    if bb.rz_done > k {
+        return;
+    }
+    bb.rz_done = k + 1;
+    let good: Vec<bool> = (0..bb.rz_good.len()).map(|c| bb.rz_good[c] == Some(k) && !bb.shut[c]).collect();
+    let svc_ok: Vec<bool> = bb.svc_rec.iter().map(|s| !s.ended && good[s.owner]).collect();
+    let mut n = 0u64;
+    for p in bb.px.iter_mut() {
+        if p.alive && good[p.client] && svc_ok[p.svc] {
+            for k in 0..NKEY {
+                if p.st[k] == Sub::On {
+                    p.st[k] = Sub::Stable;
+                    n += 1;
+                }
+            }
+        }
+    }
+    *bb.stats.entry("rz.completed".into()).or_insert(0) += 1;
+    *bb.stats.entry("rz.keys_confirmed".into()).or_insert(0) += n;
 }
 
 #[derive(Default)]
@@ -619,8 +1180,7 @@ enum Next {
 
 /// server task: answers every call with a value derived from its arguments; commands from the
 /// owning application arrive through the mailbox (emit, destroy, stop)
-async fn serve(mut svc: Service, mb: Mb, b: B, who: usize) {
-    let mut emitted = 0u32;
+async fn serve(mut svc: Service, mb: Mb, b: B, who: usize, gsvc: usize) {
     loop {
         let next = poll_fn(|cx| {
             let mut m = mb.borrow_mut();
@@ -638,18 +1198,23 @@ async fn serve(mut svc: Service, mb: Mb, b: B, who: usize) {
         .await;
         match next {
             Next::End => {
+                svc_end(&b, gsvc);
                 stat(&b, "server.stream_end");
                 break;
             }
             Next::Cmd(0, ev) => {
-                emitted += 1;
-                match svc.emit(ev, event_value(ev, emitted)) {
-                    Ok(()) => stat(&b, "emit.ok"),
+                let seq = emit_begin(&b, gsvc, ev);
+                match svc.emit(ev, event_value(ev, seq)) {
+                    Ok(()) => {
+                        stat(&b, "emit.ok");
+                        emit_ok(&b, gsvc, ev, seq);
+                    }
                     Err(Error::Shutdown) => stat(&b, "emit.shutdown"),
                     Err(e) => bad(&b, "API emit", format!("c{who} emit -> {e:?}")),
                 }
             }
             Next::Cmd(1, _) => {
+                svc_end(&b, gsvc);
                 match svc.destroy().await {
                     Ok(()) => stat(&b, "svc_destroy.ok"),
                     Err(Error::InvalidService) => stat(&b, "svc_destroy.invalid"),
@@ -658,7 +1223,10 @@ async fn serve(mut svc: Service, mb: Mb, b: B, who: usize) {
                 }
                 break;
             }
-            Next::Cmd(_, _) => break,
+            Next::Cmd(_, _) => {
+                svc_end(&b, gsvc);
+                break;
+            }
             Next::Call(call) => {
                 let f = call.id();
                 let arg = match call.deserialize::<u32>() {
@@ -698,8 +1266,10 @@ async fn serve(mut svc: Service, mb: Mb, b: B, who: usize) {
 
 struct ProxySt {
     p: Proxy,
-    ever: HashSet<u32>,
-    ever_all: bool,
+    /// index of the proxy's record on the board (event oracle)
+    pid: usize,
+    /// the event stream has ended
+    done: bool,
 }
 struct Held {
     r: PendingReply,
@@ -723,6 +1293,12 @@ struct App {
     b: B,
     shut: bool,
     objects: Vec<Object>,
+    /// per object: the services (board index) created on it
+    obj_svcs: Vec<Vec<usize>>,
+    /// every service this client created (board index)
+    my_svcs: Vec<usize>,
+    /// number of `rz` operations executed
+    rz_k: u64,
     servers: Vec<Mb>,
     proxies: Vec<ProxySt>,
     held: Vec<Held>,
@@ -755,8 +1331,18 @@ impl App {
             }
             Err(e) => {
                 let kind = err_kind(&e);
+                let run_err: Option<String> = {
+                    let bb = self.b.borrow();
+                    bb.run_results.iter().find(|(c, r)| *c == self.who && r != "Ok" && kind == "Shutdown").map(|(_, r)| r.clone())
+                };
                 if allowed.contains(&kind) || (self.shut && kind == "Shutdown") {
                     stat(&self.b, &format!("{what}.{kind}"));
+                } else if let Some(res) = run_err {
+                    // the root cause: this client's run() has already returned an error
+                    let k = res.split('(').nth(1).unwrap_or("").to_string();
+                    let class = format!("RUN {} {}", res.split('(').next().unwrap_or(""), k);
+                    let ver = self.b.borrow().vers[self.who];
+                    bad(&self.b, &class, format!("client {} (protocol 1.{ver}) run() = {res} (noticed when {what} returned Shutdown)", self.who));
                 } else {
                     bad(&self.b, &format!("API {what} {kind}"), format!("c{} {what} -> {e:?}", self.who));
                 }
@@ -817,11 +1403,15 @@ impl App {
                 let r = self.h.create_object(u).await;
                 if let Some(o) = self.api("create_object", r, &["DuplicateObject"]) {
                     self.objects.push(o);
+                    self.obj_svcs.push(vec![]);
                 }
             }
             "do" => {
                 if let Some(i) = pick(op.a, self.objects.len()) {
                     let o = self.objects.swap_remove(i);
+                    for g in self.obj_svcs.swap_remove(i) {
+                        svc_end(&b, g);
+                    }
                     if op.b == 1 {
                         let r = o.destroy().await;
                         self.api("object.destroy", r, &[]);
@@ -837,9 +1427,14 @@ impl App {
                         let mb: Mb = Default::default();
                         let mut bb = b.borrow_mut();
                         bb.services.push(svc.id());
+                        let ended = bb.shut[who];
+                        bb.svc_rec.push(SvcRec { owner: who, ended });
+                        let gsvc = bb.services.len() - 1;
                         let name = format!("server{who}.{}", self.servers.len());
-                        bb.spawn.push((name, Box::pin(serve(svc, mb.clone(), b.clone(), who))));
+                        bb.spawn.push((name, Box::pin(serve(svc, mb.clone(), b.clone(), who, gsvc))));
                         drop(bb);
+                        self.obj_svcs[i].push(gsvc);
+                        self.my_svcs.push(gsvc);
                         self.servers.push(mb);
                     }
                 }
@@ -847,7 +1442,7 @@ impl App {
             "sv" => {
                 self.servers.retain(|m| !m.borrow().gone);
                 if let Some(j) = pick(op.a, self.servers.len()) {
-                    mb_push(&self.servers[j], op.b, op.c % 3);
+                    mb_push(&self.servers[j], op.b, op.c % NEV);
                     stat(&b, "server.cmd");
                     if op.b != 0 {
                         self.servers.swap_remove(j);
@@ -857,12 +1452,47 @@ impl App {
             "px" => {
                 let s = {
                     let bb = b.borrow();
-                    pick(op.a, bb.services.len()).map(|i| bb.services[i])
+                    pick(op.a, bb.services.len()).map(|i| (i, bb.services[i]))
                 };
-                if let Some(s) = s {
+                if let Some((g, s)) = s {
                     let r = Proxy::new(&self.h, s).await;
                     if let Some(p) = self.api("proxy", r, &["InvalidService"]) {
-                        self.proxies.push(ProxySt { p, ever: HashSet::new(), ever_all: false });
+                        let siblings = self.proxies.iter().filter(|q| q.p.id() == s).count();
+                        stat(&b, &format!("proxy.siblings_at_creation.{}", siblings.min(5)));
+                        let pid = px_new(&b, who, g);
+                        if self.shut {
+                            px_dead(&b, pid);
+                        }
+                        self.proxies.push(ProxySt { p, pid, done: false });
+                    }
+                }
+            }
+            "pf" => {
+                let s = {
+                    let bb = b.borrow();
+                    pick(op.a, bb.services.len()).map(|i| (i, bb.services[i]))
+                };
+                if let Some((g, s)) = s {
+                    for j in 0..(op.b.clamp(1, 5)) {
+                        let r = Proxy::new(&self.h, s).await;
+                        let Some(p) = self.api("proxy", r, &["InvalidService"]) else { break };
+                        let siblings = self.proxies.iter().filter(|q| q.p.id() == s).count();
+                        stat(&b, &format!("proxy.siblings_at_creation.{}", siblings.min(5)));
+                        let pid = px_new(&b, who, g);
+                        if self.shut {
+                            px_dead(&b, pid);
+                        }
+                        self.proxies.push(ProxySt { p, pid, done: false });
+                        let i = self.proxies.len() - 1;
+                        let bits = (op.c >> (4 * j)) & 15;
+                        for key in 0..3usize {
+                            if bits & (1 << key) != 0 {
+                                self.sub_key(i, key).await;
+                            }
+                        }
+                        if bits & 8 != 0 {
+                            self.sub_key(i, KALL).await;
+                        }
                     }
                 }
             }
@@ -908,40 +1538,48 @@ impl App {
             }
             "su" | "us" | "sa" | "ua" => {
                 if let Some(i) = pick(op.a, self.proxies.len()) {
-                    let ev = op.b % 3;
+                    let ev = op.b % NEV;
+                    let pid = self.proxies[i].pid;
                     let (what, r) = match op.k {
                         "su" => {
-                            self.proxies[i].ever.insert(ev);
-                            ("subscribe", self.proxies[i].p.subscribe(ev).await)
+                            self.sub_key(i, ev as usize).await;
+                            return;
                         }
-                        "us" => ("unsubscribe", self.proxies[i].p.unsubscribe(ev).await),
+                        "us" => {
+                            self.note_sub_end(i, ev as usize);
+                            px_unsub_begin(&b, pid, ev as usize);
+                            let r = self.proxies[i].p.unsubscribe(ev).await;
+                            px_unsub_end(&b, pid, ev as usize);
+                            ("unsubscribe", r)
+                        }
                         "sa" => {
-                            self.proxies[i].ever_all = true;
-                            ("subscribe_all", self.proxies[i].p.subscribe_all().await)
+                            self.sub_key(i, KALL).await;
+                            return;
                         }
-                        _ => ("unsubscribe_all", self.proxies[i].p.unsubscribe_all().await),
+                        _ => {
+                            self.note_sub_end(i, KALL);
+                            px_unsub_begin(&b, pid, KALL);
+                            let r = self.proxies[i].p.unsubscribe_all().await;
+                            px_unsub_end(&b, pid, KALL);
+                            ("unsubscribe_all", r)
+                        }
                     };
                     self.api(what, r, &["InvalidService"]);
                 }
             }
             "pe" => {
                 if let Some(i) = pick(op.a, self.proxies.len()) {
+                    // first everything that HAS to arrive (awaited without bound), then a few polls
+                    self.drain_must(i).await;
                     for _ in 0..op.b {
+                        if self.proxies[i].done {
+                            break;
+                        }
                         let st = &mut self.proxies[i];
                         match try_poll(3, |cx| st.p.poll_next_event(cx)).await {
-                            Some(Some(ev)) => {
-                                let id = ev.id();
-                                let okv = ev.deserialize::<u32>().map(|v| v / 1000 == id && id < 3).unwrap_or(false);
-                                if !okv {
-                                    bad(&b, "VALUE event", format!("c{who} event {id} carries a foreign value"));
-                                } else if !(st.ever.contains(&id) || st.ever_all) {
-                                    bad(&b, "VALUE event unsubscribed", format!("c{who} received event {id} it never subscribed to"));
-                                } else {
-                                    stat(&b, "event.received");
-                                }
-                            }
+                            Some(Some(ev)) => self.on_event(i, ev),
                             Some(None) => {
-                                stat(&b, "event.stream_end");
+                                self.stream_end(i);
                                 break;
                             }
                             None => break,
@@ -951,7 +1589,10 @@ impl App {
             }
             "dp" => {
                 if let Some(i) = pick(op.a, self.proxies.len()) {
-                    drop(self.proxies.swap_remove(i));
+                    self.note_sub_end(i, KALL);
+                    let st = self.proxies.swap_remove(i);
+                    px_dead(&b, st.pid);
+                    drop(st);
                     stat(&b, "proxy.dropped");
                 }
             }
@@ -1241,13 +1882,195 @@ impl App {
                     self.api("sync_broker", r, &[]);
                 }
             }
+            "rz" => {
+                let k = self.rz_k;
+                self.rz_k += 1;
+                if !b.borrow().judge {
+                    // disturbed session: a lost reply must not stop the other clients
+                    let mut f = Box::pin(self.h.sync_broker());
+                    let _ = try_poll(6, |cx| f.as_mut().poll(cx)).await;
+                    return;
+                }
+                let r = self.h.sync_broker().await.map(|_| ());
+                let ok1 = self.api("rz.sync", r, &[]).is_some();
+                rz_wait(&b, who, 2 * k).await;
+                let r = self.h.sync_broker().await.map(|_| ());
+                let ok2 = self.api("rz.sync", r, &[]).is_some();
+                b.borrow_mut().rz_good[who] = if ok1 && ok2 { Some(k) } else { None };
+                rz_wait(&b, who, 2 * k + 1).await;
+                rz_upgrade(&b, k);
+            }
             "yi" => yield_n(op.a).await,
             "sh" => {
+                // this client's proxies are exempt from now on, its services end
+                self.mark_all_ended();
+                for st in &self.proxies {
+                    self.note_sub_end_pid(st.pid, KALL);
+                    px_dead(&b, st.pid);
+                }
+                b.borrow_mut().shut[who] = true;
                 self.h.shutdown();
                 self.shut = true;
                 stat(&b, "shutdown.explicit");
             }
             _ => unreachable!(),
+        }
+    }
+
+    /// proxy #i: subscribe(key) / subscribe_all() for key == KALL
+    async fn sub_key(&mut self, i: usize, key: usize) {
+        let pid = self.proxies[i].pid;
+        px_sub_begin(&self.b, pid, key);
+        let (what, r) = if key == KALL {
+            ("subscribe_all", self.proxies[i].p.subscribe_all().await)
+        } else {
+            ("subscribe", self.proxies[i].p.subscribe(key as u32).await)
+        };
+        px_sub_end(&self.b, pid, key, r.is_ok());
+        // subscribe_all needs protocol 1.18 on this connection (SubscribeAllEvents) AND on the owner's
+        // (only then the service info says subscribe_all): otherwise Error::NotSupported is the
+        // documented answer — and with both at 1.18+ it is not
+        let old = {
+            let bb = self.b.borrow();
+            let owner = bb.svc_rec[bb.px[pid].svc].owner;
+            key == KALL && (bb.vers[self.who] < 18 || bb.vers[owner] < 18)
+        };
+        if old {
+            if r.is_ok() {
+                stat(&self.b, "subscribe_all.ok_below_1.18");
+            }
+            self.api(what, r, &["InvalidService", "NotSupported"]);
+        } else {
+            self.api(what, r, &["InvalidService"]);
+        }
+    }
+
+    fn mark_all_ended(&self) {
+        for g in &self.my_svcs {
+            svc_end(&self.b, *g);
+        }
+    }
+
+    /// an event was taken out of proxy #i
+    fn on_event(&mut self, i: usize, ev: aldrin::low_level::Event) {
+        stat(&self.b, "event.received");
+        if !self.b.borrow().judge {
+            return;
+        }
+        let id = ev.id();
+        let v = ev.deserialize::<u32>().ok();
+        if let Err((class, detail)) = event_delivered(&self.b, self.proxies[i].pid, id, v) {
+            bad(&self.b, class, detail);
+        }
+    }
+
+    /// `next_event()` of proxy #i returned None
+    fn stream_end(&mut self, i: usize) {
+        stat(&self.b, "event.stream_end");
+        self.proxies[i].done = true;
+        let pid = self.proxies[i].pid;
+        let mut bb = self.b.borrow_mut();
+        let svc = bb.px[pid].svc;
+        let owner = bb.svc_rec[svc].owner;
+        // Owed events were emitted BEFORE the owner started to destroy the service / its object, to
+        // shut down or to drop everything (emit_ok records nothing after that), so their EmitEvent
+        // precedes the destruction on every FIFO (handle queue -> owner's client -> broker -> this
+        // client -> the proxy's queue, which is drained before None): the end of the stream does not
+        // excuse them.  Only a client that has stopped does.
+        let excused = self.shut || !bb.judge || bb.run_results.iter().any(|(c, r)| *c == self.who || (*c == owner && r != "Ok"));
+        let lost = bb.px[pid].must.front().copied();
+        let bb_ended = bb.svc_rec[svc].ended;
+        bb.px[pid].must.clear();
+        bb.px[pid].alive = false;
+        drop(bb);
+        if let (Some(m), false) = (lost, excused) {
+            bad(
+                &self.b,
+                "EVENT stream-end",
+                format!(
+                    "c{} proxy #{pid} (service #{svc} of c{owner}): next_event() returned None (service destroyed: {}), but emit #{} of event {} — emitted before the owner began to destroy anything, while this proxy held a confirmed subscription — was never delivered",
+                    self.who, bb_ended, m.seq, m.ev
+                ),
+            );
+        }
+    }
+
+    /// await every event that HAS to be delivered to proxy #i (the property: an awaited operation
+    /// whose peer has acted completes).  If one of them was lost the executor runs dry with
+    /// `awaiting` set, which run_case reports as `EVENT lost`.
+    async fn drain_must(&mut self, i: usize) {
+        loop {
+            let pid = self.proxies[i].pid;
+            if self.proxies[i].done || self.shut {
+                return;
+            }
+            {
+                let mut bb = self.b.borrow_mut();
+                if !bb.judge || bb.px[pid].must.is_empty() {
+                    return;
+                }
+                bb.px[pid].awaiting = true;
+            }
+            let ev = self.proxies[i].p.next_event().await;
+            self.b.borrow_mut().px[pid].awaiting = false;
+            match ev {
+                Some(ev) => self.on_event(i, ev),
+                None => {
+                    self.stream_end(i);
+                    return;
+                }
+            }
+        }
+    }
+
+    /// coverage only: proxy #i gives up `key` (KALL = everything: unsubscribe_all, drop).  Counts the
+    /// shapes the event oracle is about: siblings of the same (client, service) that stay
+    /// subscribed with DIFFERENT sets, and all-events subscriptions of other connections that stay
+    /// while the last single-event subscription of the service goes away
+    fn note_sub_end(&self, i: usize, key: usize) {
+        self.note_sub_end_pid(self.proxies[i].pid, key);
+    }
+
+    fn note_sub_end_pid(&self, pid: usize, key: usize) {
+        let mut bb = self.b.borrow_mut();
+        let (client, svc, st) = {
+            let p = &bb.px[pid];
+            (p.client, p.svc, p.st)
+        };
+        if !bb.px[pid].alive {
+            return;
+        }
+        let on = |s: Sub| matches!(s, Sub::On | Sub::Stable);
+        let mut hits: Vec<&'static str> = vec![];
+        for e in 0..KALL {
+            if !(key == KALL || key == e) || !on(st[e]) {
+                continue;
+            }
+            let sib: Vec<&PxRec> = bb.px.iter().enumerate().filter(|(j, q)| *j != pid && q.alive && q.client == client && q.svc == svc).map(|(_, q)| q).collect();
+            let with = sib.iter().filter(|q| on(q.st[e])).count();
+            let stable = sib.iter().filter(|q| q.st[e] == Sub::Stable).count();
+            if with > 0 && with < sib.len() {
+                hits.push("subend.siblings_mixed");
+                if stable > 0 {
+                    hits.push("subend.siblings_mixed_confirmed");
+                }
+            } else if with > 0 {
+                hits.push("subend.siblings_all_subscribed");
+            }
+            // last single-event subscription of the service (over all clients) while another
+            // CONNECTION keeps a confirmed all-events subscription
+            let others_ev = bb.px.iter().enumerate().any(|(j, q)| j != pid && q.alive && q.svc == svc && (0..KALL).any(|x| on(q.st[x])));
+            let mine_other = (0..KALL).any(|x| x != e && on(st[x]) && !(key == KALL));
+            let all_elsewhere = bb.px.iter().any(|q| q.alive && q.svc == svc && q.client != client && q.st[KALL] == Sub::Stable);
+            let all_here = bb.px.iter().enumerate().any(|(j, q)| j != pid && q.alive && q.svc == svc && q.client == client && q.st[KALL] == Sub::Stable);
+            if !others_ev && !mine_other && all_elsewhere {
+                hits.push("subend.last_single_event_while_all_events_elsewhere");
+            } else if !others_ev && !mine_other && all_here {
+                hits.push("subend.last_single_event_while_all_events_same_client");
+            }
+        }
+        for h in hits {
+            *bb.stats.entry(h.into()).or_insert(0) += 1;
         }
     }
 
@@ -1322,6 +2145,9 @@ async fn app(who: usize, h: Handle, b: B, prog: Vec<Op>, barrier: Option<usize>)
         b: b.clone(),
         shut: false,
         objects: vec![],
+        obj_svcs: vec![],
+        my_svcs: vec![],
+        rz_k: 0,
         servers: vec![],
         proxies: vec![],
         held: vec![],
@@ -1334,10 +2160,23 @@ async fn app(who: usize, h: Handle, b: B, prog: Vec<Op>, barrier: Option<usize>)
         listeners: vec![],
         bound: HashSet::new(),
     };
+    {
+        let want = b.borrow().vers[who];
+        match a.h.version().await {
+            Ok(v) if v.major() == 1 && v.minor() == want => stat(&b, &format!("version.1.{want}")),
+            Ok(v) => bad(&b, "CONNECT version", format!("c{who} negotiated {v}, the program says 1.{want}")),
+            Err(e) => bad(&b, "CONNECT version", format!("c{who} Handle::version() -> {e:?}")),
+        }
+    }
     for (i, op) in prog.into_iter().enumerate() {
         yield_n((op.a + i as u32) % 3).await;
         stat(&b, &format!("op.{}", op.k));
         a.step(op).await;
+    }
+    // the program is over: no further rendezvous; whatever is still owed to a live proxy has to arrive
+    rz_leave(&b, who);
+    for i in 0..a.proxies.len() {
+        a.drain_must(i).await;
     }
     {
         let ws: Vec<Waker> = {
@@ -1363,6 +2202,10 @@ async fn app(who: usize, h: Handle, b: B, prog: Vec<Op>, barrier: Option<usize>)
     }
     // stop the server tasks (a Service whose object was destroyed never ends its call stream),
     // then collect the calls still held: their peers have acted or are gone
+    a.mark_all_ended();
+    for st in &a.proxies {
+        px_dead(&b, st.pid);
+    }
     for m in &a.servers {
         mb_push(m, 2, 0);
     }
@@ -1393,9 +2236,17 @@ struct CaseResult {
     verdicts: Vec<String>,
 }
 
-async fn setup(i: usize, t1: Tap, t2: Tap, mut bh: aldrin_broker::BrokerHandle, b: B, prog: Vec<Op>, barrier: Option<usize>) {
+async fn setup(i: usize, mut t1: Tap, t2: Tap, mut bh: aldrin_broker::BrokerHandle, b: B, prog: Vec<Op>, barrier: Option<usize>) {
     // both halves of the handshake are driven from this task
-    let mut cf: Pin<Box<dyn Future<Output = _>>> = Box::pin(Client::connect(t1));
+    let ver = b.borrow().vers[i];
+    let mut cf: Pin<Box<dyn Future<Output = _>>> = if ver <= 14 {
+        Box::pin(Client::builder(t1).connect1())
+    } else {
+        if ver < 20 {
+            t1.clamp = Some(ver);
+        }
+        Box::pin(Client::connect(t1))
+    };
     let mut bf = Box::pin(bh.connect(t2));
     let (mut cres, mut bres) = (None, None);
     poll_fn(|cx| {
@@ -1422,6 +2273,7 @@ async fn setup(i: usize, t1: Tap, t2: Tap, mut bh: aldrin_broker::BrokerHandle, 
         (Ok(c), Ok(k)) => (c, k),
         (c, k) => {
             bad(&b, "CONNECT", format!("c{i} handshake failed: client {:?} broker {:?}", c.err().map(|e| e.to_string()), k.err().map(|e| e.to_string())));
+            rz_leave(&b, i);
             let mut bb = b.borrow_mut();
             bb.app_done += 1;
             bb.progs_done += 1;
@@ -1456,6 +2308,14 @@ const POLL_BUDGET: u64 = 3_000_000;
 
 fn run_case(case: &Case) -> CaseResult {
     let b: B = Default::default();
+    {
+        let mut bb = b.borrow_mut();
+        bb.shut = vec![false; case.n];
+        bb.rz_arr = vec![0; case.n];
+        bb.rz_good = vec![None; case.n];
+        bb.judge = case.faults == 0;
+        bb.vers = (0..case.n).map(|i| case.ver(i)).collect();
+    }
     let mut r = Rng::new(case.sched);
     let broker = Broker::new();
     let bh = broker.handle().clone();
@@ -1520,6 +2380,25 @@ fn run_case(case: &Case) -> CaseResult {
             // quiescence with unfinished tasks: something awaits an event that nobody will produce
             let pend: Vec<&str> = live.iter().map(|i| names[*i].as_str()).collect();
             let bb = b.borrow();
+            // an application sits in next_event().await for an event that had to be delivered
+            if let Some((pid, p)) = bb.px.iter().enumerate().find(|(_, p)| p.awaiting && !p.must.is_empty()) {
+                let m = p.must[0];
+                fail = Some(Failure {
+                    class: "EVENT lost".into(),
+                    detail: format!(
+                        "c{} awaits next_event() of proxy #{pid} (service #{} of c{}) and nothing can run any more: emit #{} of event {} was emitted while this proxy held a confirmed subscription ({}) and was never delivered; {} such events outstanding; unfinished tasks {:?}",
+                        p.client,
+                        p.svc,
+                        bb.svc_rec[p.svc].owner,
+                        m.seq,
+                        m.ev,
+                        if m.by_ev { "to that event" } else { "to all events" },
+                        p.must.len(),
+                        pend
+                    ),
+                });
+                break;
+            }
             fail = Some(Failure {
                 class: "HANG".into(),
                 detail: format!(
@@ -1569,12 +2448,38 @@ fn run_case(case: &Case) -> CaseResult {
             break;
         }
     }
+    if fail.is_none() && case.faults == 0 {
+        // no client is ever closed by the broker: a Shutdown arrives only after the client sent its own
+        for (i, l) in logs.iter().enumerate() {
+            let l = l.borrow();
+            let got = l.iter().position(|(sent, m)| !*sent && matches!(m, Message::Shutdown(_)));
+            let asked = l.iter().position(|(sent, m)| *sent && matches!(m, Message::Shutdown(_)));
+            if let Some(g) = got {
+                if asked.map(|a| a > g).unwrap_or(true) {
+                    let last: Vec<String> = l[..g].iter().rev().filter(|(sent, _)| *sent).take(3).map(|(_, m)| format!("{m:?}").split('(').next().unwrap_or("").to_string()).collect();
+                    fail = Some(Failure {
+                        class: "CLOSED by broker".into(),
+                        detail: format!(
+                            "the broker shut down the connection of client {i} (protocol 1.{}) although the client had not asked for it; the client's last messages before that (newest first): {:?}",
+                            case.ver(i),
+                            last
+                        ),
+                    });
+                    break;
+                }
+            }
+        }
+    }
     if fail.is_none() {
         let bb = b.borrow();
         for (i, s) in &bb.run_results {
             if s != "Ok" {
                 let kind = s.split('(').nth(1).unwrap_or("").to_string();
-                fail = Some(Failure { class: format!("RUN {}", s.split('(').next().unwrap_or("") .to_string() + " " + &kind), detail: format!("client {i} run() = {s}") });
+                let last: Vec<String> = logs[*i].borrow().iter().rev().filter(|(sent, _)| *sent).take(4).map(|(_, m)| format!("{m:?}").split('(').next().unwrap_or("").to_string()).collect();
+                fail = Some(Failure {
+                    class: format!("RUN {}", s.split('(').next().unwrap_or("").to_string() + " " + &kind),
+                    detail: format!("client {i} (protocol 1.{}) run() = {s}; the last messages it sent (newest first): {last:?}", case.ver(*i)),
+                });
                 break;
             }
         }
@@ -1677,6 +2582,14 @@ fn shrink(case: &Case, f: &Failure) -> (Case, Failure, u64) {
             bf = f2;
         }
     }
+    if best.vers.iter().any(|v| *v != 20) {
+        let mut c = best.clone();
+        c.vers.clear();
+        if let Some((c2, f2)) = still_fails(&c, &f.class, &mut runs) {
+            best = c2;
+            bf = f2;
+        }
+    }
     // ddmin on the operation list
     let mut chunk = (best.ops.len() + 1) / 2;
     while chunk >= 1 && !best.ops.is_empty() && runs < 4000 {
@@ -1757,7 +2670,22 @@ fn has_cancel(c: &Case) -> bool {
 ///    while its request was in flight
 ///  * `double-bind-closes-held-end`: the map assertion of req_send_item / req_add_channel_capacity
 ///    fires in a run in which a client bound a channel end it already held
+///  * `event-lost` / `event-unsubscribed` / `event-order` / `event-foreign` / `event-stream-end`:
+///    the event oracle (per-proxy subscription state kept from the program)
 fn classify(c: &Case, f: &Failure, runs: &mut u64) -> (String, Case, Failure) {
+    // the event oracle's classes are their own families
+    for (class, tag) in [
+        ("EVENT lost", "event-lost"),
+        ("EVENT unsubscribed", "event-unsubscribed"),
+        ("EVENT order", "event-order"),
+        ("EVENT foreign", "event-foreign"),
+        ("EVENT stream-end", "event-stream-end"),
+        ("CLOSED by broker", "closed-by-broker"),
+    ] {
+        if f.class == class {
+            return (tag.into(), c.clone(), f.clone());
+        }
+    }
     if f.class.starts_with("SPIN client.run") {
         return ("drain-abort-spin".into(), c.clone(), f.clone());
     }
@@ -1796,12 +2724,12 @@ fn fnv(s: &str) -> u64 {
     h
 }
 
-fn trace_text(trace: &[Vec<(bool, Message)>], verdicts: &[String]) -> Vec<String> {
-    // one line per client: `T <client> V <verdict> ; <S|R> msg ; <S|R> msg ; ...` — uuids numbered per case
+fn trace_text(trace: &[Vec<(bool, Message)>], verdicts: &[String], case: &Case) -> Vec<String> {
+    // one line per client: `T <client> P <minor> V <verdict> ; <S|R> msg ; <S|R> msg ; ...` — uuids numbered per case
     let mut ids = Ids::default();
     let mut out = vec![];
     for (i, t) in trace.iter().enumerate() {
-        let mut s = format!("T {i} V {}", verdicts.get(i).map(String::as_str).unwrap_or("none"));
+        let mut s = format!("T {i} P {} V {}", case.ver(i), verdicts.get(i).map(String::as_str).unwrap_or("none"));
         for (sent, m) in t {
             write!(s, " ; {} {}", if *sent { "S" } else { "R" }, fmt_msg(m, &mut ids)).unwrap();
         }
@@ -1869,7 +2797,7 @@ fn write_outputs(outdir: &str, cases: &[Case], results: Vec<CaseResult>, do_shri
         let text = c.text();
         // non-trivial: at least two clients with operations and at least one cross-client interaction kind
         let active = (0..c.n).filter(|w| c.ops.iter().any(|(x, _)| x == w)).count();
-        let cross = c.ops.iter().any(|(_, o)| matches!(o.k, "px" | "clr" | "cls"));
+        let cross = c.ops.iter().any(|(_, o)| matches!(o.k, "px" | "pf" | "clr" | "cls"));
         if active >= 2 && cross && c.ops.len() >= 8 {
             t.distinct.insert(fnv(&text.split_once('|').map(|x| x.1).unwrap_or("").to_string()));
         }
@@ -1900,7 +2828,7 @@ fn write_outputs(outdir: &str, cases: &[Case], results: Vec<CaseResult>, do_shri
             }
         }
         if want_trace && ci < trace_max && (fault || r.fail.is_none()) {
-            for (k, l) in trace_text(&r.trace, &r.verdicts).into_iter().enumerate() {
+            for (k, l) in trace_text(&r.trace, &r.verdicts, c).into_iter().enumerate() {
                 t.traced_msgs += r.trace[k].len() as u64;
                 writeln!(trace_txt, "{ci} {l}").unwrap();
             }
@@ -1952,6 +2880,9 @@ fn main() {
                 failing_claims: !flag("--no-failing-claims"),
                 cancel_claims: !flag("--no-cancel-claims"),
                 shutdown_op: !flag("--no-shutdown-op"),
+                event_theme: !flag("--no-event-theme"),
+                listener_heavy: false,
+                versions: !flag("--no-versions"),
             };
             let mut cases: Vec<Case> = (0..n).map(|_| gen_case(&mut r, len, o)).collect();
             if let Some(i) = args.iter().position(|a| a == "--faults") {
